@@ -125,6 +125,26 @@ def rule_r7(ctx):
                         edges = mir.equality_edges(body, st)
                         if edges and _dominated_by_edges(body, edges, b):
                             ok = True
+        # the same guard written on the Options: `self.last_used.get(&b) == Some(&gate_id)`
+        for cb_, ct in body.calls():
+            dec = ct["func"].get("declared")
+            if dec not in ("std::cmp::PartialEq::eq", "std::cmp::PartialEq::ne") or len(ct["args"]) != 2 or ct["dest"]["p"]:
+                continue
+            sides = [body.trace_operand(a) for a in ct["args"]]
+            from_get = [any(r[0] == "call" and any(r[1] == g for g, _ in gets) and not p and
+                            {(r2, tuple(p2)) for (r2, p2) in body.trace_operand(body.term(r[1])["args"][1])} == key for (r, p) in sd) for sd in sides]
+            some_gate = [False, False]
+            for i, sd in enumerate(sides):
+                for (r, p) in sd:
+                    if r[0] == "agg" and not p:
+                        rv = body.blocks[r[1]]["stmts"][r[2]]["rv"]
+                        if rv.get("variant") == "Some" and len(rv["ops"]) == 1 and any(r2 == ("arg", 2) and not p2 for (r2, p2) in body.trace_operand(rv["ops"][0])):
+                            some_gate[i] = True
+            if (from_get[0] and some_gate[1]) or (from_get[1] and some_gate[0]):
+                fake = {"rv": {"op": "Eq" if dec.endswith("::eq") else "Ne"}, "place": {"l": ct["dest"]["l"]}}
+                edges = mir.equality_edges(body, fake)
+                if edges and _dominated_by_edges(body, edges, b):
+                    ok = True
         if ok:
             res.ok({"site": "wire_map.remove at line %d" % t["sp"][1], "verdict": "only on the edge last_used[operand] == gate_id"})
         else:
